@@ -16,8 +16,10 @@ EXTENDS Obs
 
 Eff_(k, v, c, clr) == [k |-> k, v |-> v, c |-> c, clr |-> clr]
 
+\* ovf: the statement speaks about histories with fewer than 32 events pending; once a 33rd event arrives while 32 are
+\* pending (the event queue wraps) nothing further is claimed for the rest of the history
 MonInit(p) == [p |-> p, pending |-> <<>>, held |-> <<>>, base |-> 0, prev |-> <<>>,
-               down |-> {}, err |-> ""]
+               down |-> {}, ovf |-> FALSE, err |-> ""]
 
 MapLookup(layer, c) ==     \* <<>> or <<action>>
   LET I == {i \in DOMAIN layer : layer[i].c = c} IN
@@ -82,7 +84,9 @@ ProcessEvent(m, ev) ==
 \* r: input record [e, c, out]
 MonIn(m, r) ==
   IF m.err # "" THEN m
-  ELSE IF r.e \in {"d", "u"} THEN [m EXCEPT !.pending = Append(@, [p |-> r.e = "d", c |-> r.c])]
+  ELSE IF r.e \in {"d", "u"} THEN
+    IF m.ovf \/ Len(m.pending) >= 32 THEN [m EXCEPT !.ovf = TRUE]
+    ELSE [m EXCEPT !.pending = Append(@, [p |-> r.e = "d", c |-> r.c])]
   ELSE Fail(m, "C04: input kind outside the fragment")
 
 KeysOf(held) == LET ks == SelectSeq(held, LAMBDA e : e.k = "key") IN [i \in 1..Len(ks) |-> ks[i].v]
@@ -98,7 +102,7 @@ ExpectedOut(prev, cur) ==
   IN [i \in 1..Len(rel) |-> <<"u", rel[i]>>] \o [i \in 1..Len(prs) |-> <<"d", prs[i]>>]
 
 MonTick(m, out, idle, cb) ==
-  IF m.err # "" THEN m
+  IF m.err # "" \/ m.ovf THEN m
   ELSE
     LET m1 == IF m.pending = <<>> THEN m
               ELSE ProcessEvent([m EXCEPT !.pending = Tail(@)], Head(m.pending))
@@ -112,7 +116,7 @@ MonTick(m, out, idle, cb) ==
 \* n silent ticks
 RECURSIVE MonSilent(_, _, _, _)
 MonSilent(m, n, idle, cb) ==
-  IF n = 0 \/ m.err # "" THEN m
+  IF n = 0 \/ m.err # "" \/ m.ovf THEN m
   ELSE IF m.pending = <<>> /\ m.prev = KeysOf(m.held)
   THEN m       \* nothing pending, nothing to emit: further silent ticks change nothing
   ELSE MonSilent(MonTick(m, <<>>, idle, cb), n - 1, idle, cb)
